@@ -5,8 +5,8 @@ from fractions import Fraction as Fr
 from .common import fhex as _fhex, ints
 
 PROP_FILE = "Properties/C18.v"
-GEN = ["GenC18"]
-RUN_FILES = ["Model/C18_run.v"]
+GEN = ["GenC18", "GenC18imp"]
+RUN_FILES = ["Model/C18_run.v", "Model/C18_imp_run.v"]
 
 EPS = Fr(0.02)            # masked_ints' epsilon, the exact binary64 value
 TOL = Fr(1, 2 ** 26)      # pixels; slack granted to binary64 rounding next to a border on non-dyadic inputs
@@ -306,7 +306,7 @@ def ll_verdict(a, x, y, col, row):
 
 # ---------------------------------------------------------------------------------------------------- run
 HDR = ("From Coq Require Import ZArith List Bool PrimFloat.\n"
-       "From PR Require Import Base.Num Base.F64 Base.ListX Model.Grid Model.CellIndex Model.C18_run.\n"
+       "From PR Require Import Base.Num Base.F64 Base.ListX Model.Grid Model.CellIndex Model.C18_run Model.C18_imp_run.\n"
        "Import ListNotations.\nOpen Scope Z_scope.\n")
 
 
@@ -622,6 +622,13 @@ def check_area_obs(ctx, a, ai, spec, obs, cases, agree):
                                     {"area": dict(core, target=spec["target"], segments=spec.get("segments")), "module": "icq", "pixel": j, "kind": kind})
                     continue
                 cases["grid_img"].append("(%s, %s, %s, %d)" % (an, fhex(x), fhex(y), code))
+            if all(c_ == cm_ and c_ >= 0 for c_, cm_ in zip(m["img"], m["imgm"])) and len(m["img"]) == m["shape"][0] * m["shape"][1]:
+                seg = spec.get("segments")
+                ctx.count("imp_resampled/segments=%s" % seg)
+                cases["imp_resampled"].append("(%s, %d, %d, %s, [%s], [%s])" % (
+                    an, m["shape"][0], m["shape"][1], "None" if seg is None else "(Some %d)" % seg,
+                    "; ".join("(%s, %s)" % (fhex(uh(xh_)), fhex(uh(yh_))) for xh_, yh_ in zip(m["x"], m["y"])),
+                    "; ".join("(%d)" % v_ for v_ in m["img"])))
 
 
 def check_quick_obs(ctx, a, ai, spec, obs, cases):
@@ -659,7 +666,8 @@ def check_quick_obs(ctx, a, ai, spec, obs, cases):
             cases["quick"].append("(%s, %s, %s, %d, %d, %d)" % (an, fhex(x), fhex(y), row, col, code))
 
 
-CHK = {"quick": ("chk_quick", "generate_quick_linesample_arrays + get_array_from_linesample"),
+CHK = {"imp_resampled": ("chk_imp_resampled", "generated get_resampled_image (Gen/GenC18imp) vs ImageContainerQuick.resample"),
+       "quick": ("chk_quick", "generate_quick_linesample_arrays + get_array_from_linesample"),
        "area": ("chk_area", "get_array_indices_from_lonlat/_from_projection_coordinates"),
        "area_scalar": ("chk_area_scalar", "scalar get_array_indices_from_lonlat"),
        "grid": ("chk_grid", "get_linesample + get_image_from_lonlats"), "grid_img": ("chk_grid_img", "ImageContainerQuick.resample"),
@@ -735,7 +743,7 @@ def run(ctx):
     defs = "".join("Definition a%d : fa := %s.\n" % (i, a.coq()) for i, a in enumerate(areas))
     texts = []
     for kind, lines in cases.items():
-        per = 30 if kind == "ll_count" else 400
+        per = 30 if kind == "ll_count" else (8 if kind == "imp_resampled" else 400)
         for s in range(0, len(lines), per):
             chunk = lines[s:s + per]
             name = "c18_%s_%03d" % (kind, s // per)
